@@ -334,7 +334,7 @@ fn any_counter() -> Option<i32> {
 //@ harness: c09_matches_step
 //@ prop: C09
 //@ tier: quick
-//@ timeout: 1800
+//@ timeout: 3600
 //@ mem: 16
 //@ unwindset: binary_search_by=12; ^memcmp#0=70; encode_to|to_hex|hex=70; KeepOptions.*matches=11; c09_matches_step=11; matches_step_body=11
 //@ kernel: KeepOptions::matches (counter bookkeeping for keep-last and the eight period rules, keep-ids), the period predicates, always_false
